@@ -848,7 +848,7 @@ impl<'a> Rf<'a> {
                             let mut e: Vec<Pat> = i.exp.iter().cloned().collect();
                             e.sort();
                             let exp = if i.custom.is_some() { None } else { Some(e) };
-                            i.custom = Some(format!("M{}[{:?}|{:?}]", t, exp, i.custom));
+                            i.custom = Some(crate::grammar::map_err_marker(*t, &exp, &i.custom));
                             i.found_fuzzy = false;
                             i.found = None;
                             i.exp.clear();
